@@ -54,10 +54,45 @@ type World struct {
 	Par     bool            // real-parallelism family: the in-latch logger also logs the release of the latch
 	Blobs   map[string][]byte
 	snapOf  map[string]string // actor -> collection it is snapshotting
+	// WideCols: numeric columns (by name; default additive merge only) whose values the harness writes multiplied by a
+	// large odd factor and reads divided by it: the model keeps its small integers, the real values and deltas need more
+	// than 32 bits (or more than 20, for the 32-bit kinds). The additive merge is linear, so nothing else changes.
+	WideCols map[string]bool
+}
+
+// wideFactor is the factor for a representation (1: not scaled).
+func wideFactor(repr string) int {
+	switch repr {
+	case "int", "int64", "uint", "uint64", "float64", "record":
+		return 1<<33 + 1
+	case "int32", "uint32":
+		return 1<<20 + 1
+	}
+	return 1
+}
+
+func (c *Coll) wide(d ColDesc) int {
+	if d.Kind == "int" && d.Merge == "add" && c.W.WideCols[d.Name] {
+		return wideFactor(d.Repr)
+	}
+	return 1
+}
+
+// narrow maps a real value back to the model's (a value that is no multiple of the factor maps to a number no model value equals).
+func (c *Coll) narrow(d ColDesc, v any) any {
+	f := c.wide(d)
+	x, isInt := v.(int)
+	if f == 1 || !isInt {
+		return v
+	}
+	if x%f != 0 {
+		return -1000000000 - (x%f+f)%f%1000
+	}
+	return x / f
 }
 
 func NewWorld() *World {
-	return &World{T: NewTracer(), Colls: map[string]*Coll{}, tracked: map[uint32]bool{}, Blobs: map[string][]byte{}, snapOf: map[string]string{}}
+	return &World{T: NewTracer(), Colls: map[string]*Coll{}, tracked: map[uint32]bool{}, Blobs: map[string][]byte{}, snapOf: map[string]string{}, WideCols: map[string]bool{}}
 }
 
 func (w *World) Track(o uint32) { w.tmu.Lock(); w.tracked[o] = true; w.tmu.Unlock() }
@@ -207,7 +242,7 @@ func readerValue(d ColDesc, r column.Reader) any {
 func (c *Coll) predicate(x IdxDesc) func(r column.Reader) bool {
 	d, _ := c.Desc(x.Col)
 	return func(r column.Reader) bool {
-		v := readerValue(d, r)
+		v := c.narrow(d, readerValue(d, r))
 		switch x.F {
 		case "ge":
 			return v.(int) >= toInt(x.A)
@@ -261,7 +296,7 @@ func (c *Coll) CreateTrigger(name, col string) error {
 		if r.IsDelete() {
 			e["k"], e["v"] = "del", 0
 		} else {
-			e["k"], e["v"] = "put", readerValue(d, r)
+			e["k"], e["v"] = "put", c.narrow(d, readerValue(d, r))
 		}
 		c.fmu.Lock()
 		c.fired[name] = append(c.fired[name], e)
@@ -303,6 +338,10 @@ func (c *Coll) takeFired() map[string][]Ev {
 func (c *Coll) Write(t string, r column.Row, d ColDesc, k string, v any) {
 	name := d.Name
 	mrg := k == "mrg"
+	model := v // what is logged
+	if f := c.wide(d); f != 1 {
+		v = toInt(v) * f
+	}
 	// every third put goes through the untyped writers (Row.SetAny, Row.SetMany), which pick the encoding from the
 	// Go type of the value
 	if fl := atomic.AddInt64(&c.writes, 1) % 6; !mrg && d.Kind != "key" && (fl == 2 || fl == 5) {
@@ -312,7 +351,7 @@ func (c *Coll) Write(t string, r column.Row, d ColDesc, k string, v any) {
 			} else if err := r.SetMany(map[string]any{name: tv}); err != nil {
 				panic("SetMany: " + err.Error())
 			}
-			c.W.T.Log(Ev{"e": "w", "t": t, "n": name, "k": k, "o": int(r.Index()), "v": v})
+			c.W.T.Log(Ev{"e": "w", "t": t, "n": name, "k": k, "o": int(r.Index()), "v": model})
 			return
 		}
 	}
@@ -438,7 +477,7 @@ func (c *Coll) Write(t string, r column.Row, d ColDesc, k string, v any) {
 			r.SetUint64(name, uint64(intTokens(d.Repr)[tok]))
 		}
 	}
-	c.W.T.Log(Ev{"e": "w", "t": t, "n": name, "k": k, "o": int(r.Index()), "v": v})
+	c.W.T.Log(Ev{"e": "w", "t": t, "n": name, "k": k, "o": int(r.Index()), "v": model})
 }
 
 // typedAny is the value as the Go type that the column's own typed writer would have been given.
@@ -549,13 +588,21 @@ func zeroOf(d ColDesc) any {
 // ReadRow reads one column at the cursor; flavor selects the accessor family:
 // 0 Row.X, 1 txn.X(name).Get(), 2 Row.Any.
 func (c *Coll) ReadRow(txn *column.Txn, r column.Row, d ColDesc, flavor int) [2]any {
+	p := c.readRow(txn, r, d, flavor)
+	if p[0] == true {
+		p[1] = c.narrow(d, p[1])
+	}
+	return p
+}
+
+func (c *Coll) readRow(txn *column.Txn, r column.Row, d ColDesc, flavor int) [2]any {
 	name := d.Name
 	if flavor == 2 {
 		v, ok := r.Any(name)
 		if !ok {
 			return [2]any{false, zeroOf(d)}
 		}
-		return [2]any{true, c.fromAny(d, v)}
+		return [2]any{true, c.fromAnyRaw(d, v)}
 	}
 	acc := flavor == 1
 	absent := [2]any{false, zeroOf(d)}
@@ -773,7 +820,9 @@ func (c *Coll) ReadRow(txn *column.Txn, r column.Row, d ColDesc, flavor int) [2]
 	panic("ReadRow: repr " + d.Repr)
 }
 
-func (c *Coll) fromAny(d ColDesc, v any) any {
+func (c *Coll) fromAny(d ColDesc, v any) any { return c.narrow(d, c.fromAnyRaw(d, v)) }
+
+func (c *Coll) fromAnyRaw(d ColDesc, v any) any {
 	tokBits := func(b uint64) any {
 		switch d.Repr {
 		case "float64":
@@ -1041,7 +1090,9 @@ func (c *Coll) decode(u *commit.Buffer, chunk commit.Chunk) (out []Ev) {
 	return
 }
 
-func (c *Coll) decodeValue(d ColDesc, r *commit.Reader) any {
+func (c *Coll) decodeValue(d ColDesc, r *commit.Reader) any { return c.narrow(d, c.decodeValueRaw(d, r)) }
+
+func (c *Coll) decodeValueRaw(d ColDesc, r *commit.Reader) any {
 	size := len(r.Bytes())
 	switch d.Kind {
 	case "str":
